@@ -588,6 +588,8 @@ class Symbolic(
       skip_notification = not flags.is_change_notification_enabled()
     if not skip_notification:
       self._notify_field_updates(updates, notify_parents=notify_parents)
+    else:
+      self._reset_content_caches(updates)
     return self
 
   def sym_clone(self,
@@ -1248,6 +1250,24 @@ class Symbolic(
             f'Cannot rebind key {path.key!r} of '
             f'sealed {parent_node.__class__.__name__}: {parent_node!r}. '
             f'(path=\'{path.parent}\')')
+
+  def _reset_content_caches(self, field_updates: List[FieldUpdate]) -> None:
+    """Resets content-based caches of updated nodes and their ancestors.
+
+    Called when a rebind skips the change notification (which would have reset
+    the caches), so that `sym_missing`, `sym_nondefault`, `sym_puresymbolic`
+    (thus `is_partial`) do not report the state before the update.
+
+    Args:
+      field_updates: The updates that were applied.
+    """
+    for update in field_updates:
+      target = update.target
+      while target is not None:
+        target._set_raw_attr('_sym_puresymbolic', None)       # pylint: disable=protected-access
+        target._set_raw_attr('_sym_missing_values', None)     # pylint: disable=protected-access
+        target._set_raw_attr('_sym_nondefault_values', None)  # pylint: disable=protected-access
+        target = target.sym_parent
 
   def _notify_field_updates(
       self,
